@@ -384,16 +384,17 @@ def run_case(case, model, exact_stamps=True, extra_rounds=2):
         res.calls = sum(len(c) for _, c in snaps)
         out = model.call([0, wire_cfg(case["level"]), t0, lg0, acts])
         res.in_frag = bool(model.call([1, wire_cfg(case["level"]), acts]))
-        if case["level"] == 1:
-            # the coupling invariant of AlgoInv.v, evaluated by the extracted model on every world of the run
-            # (equal to the real states by the comparison below); and "quiescent => equal trees"
+        if True:
+            # the coupling invariant of AlgoInv.v (fragment F1), evaluated by the extracted model on every world of the run
+            # (equal to the real states by the comparison below); and, on every level, "quiescent => equal trees"
             inv = model.call([2, wire_cfg(case["level"]), t0, lg0, acts])
             for i, v in enumerate(inv):
                 if v[0] == 999:
                     break
-                res.inv_states += 1
-                if v[0] != 0 and res.inv_fail is None:
-                    res.inv_fail = (i - 1, readable[i - 1] if i else "initial state", v[0])
+                if case["level"] == 1:
+                    res.inv_states += 1
+                    if v[0] != 0 and res.inv_fail is None:
+                        res.inv_fail = (i - 1, readable[i - 1] if i else "initial state", v[0])
                 if v[1]:
                     res.quiet_states += 1
                     if not v[2] and res.quiet_unequal is None:
